@@ -506,3 +506,42 @@ class Program(object):
         if qn not in self.modules:
             raise AnalysisError("anchor module %s vanished" % short)
         return self.modules[qn]
+
+
+# ----------------------------------------------------------------------------------------------- canonical callee names
+def _func_local_imports(prog, f):
+    cache = prog.__dict__.setdefault("_local_imports", {})
+    if f.qualname not in cache:
+        nodes = [n for n in walk_no_nested(f.node) if isinstance(n, (ast.Import, ast.ImportFrom))]
+        cache[f.qualname] = collect_imports(f.module, nodes) if nodes else {}
+    return cache[f.qualname]
+
+
+def canonical_name(prog, f_or_mod, expr):
+    """import-style independent dotted name of a Name / Attribute expression:
+    repository functions and classes -> their short qualified name ('util.format_cardinality', 'validation.Validation',
+    'dtypes.get'); imported external objects -> their external dotted name ('uuid.uuid4', 'os.path.join', 'posixpath.dirname');
+    anything else (locals, attributes of objects) -> the source text."""
+    mod = getattr(f_or_mod, "module", f_or_mod)
+    li = _func_local_imports(prog, f_or_mod) if hasattr(f_or_mod, "qualname") and hasattr(f_or_mod, "node") and hasattr(f_or_mod, "module") else None
+    try:
+        r = prog.resolve_expr_to_symbol(mod, expr, local_imports=li)
+    except Exception:
+        r = None
+    if isinstance(r, FuncInfo):
+        return r.short
+    if isinstance(r, ClassInfo):
+        q = r.module.name + "." + r.name
+        return q[len(PKG) + 1:] if q.startswith(PKG + ".") else q
+    if isinstance(r, ModuleInfo):
+        return r.name[len(PKG) + 1:] if r.name.startswith(PKG + ".") else r.name
+    if isinstance(r, tuple) and r and r[0] == "external":
+        return r[1]
+    if isinstance(r, tuple) and r and r[0] == "boundmethod":
+        return r[2].short
+    return unparse(expr)
+
+
+def cname(prog, f_or_mod, call):
+    """canonical_name of the callee of a Call node."""
+    return canonical_name(prog, f_or_mod, call.func)
